@@ -6,7 +6,7 @@
 (* the abstract session holds.  The validator never stops at a mismatch:   *)
 (* it records the line, prints the expected value and goes on.             *)
 (***************************************************************************)
-EXTENDS Ops, JsonText, Json, IOUtils, TLC
+EXTENDS Ops, JsonText, Path, PathText, Json, IOUtils, TLC
 
 Rec == ndJsonDeserialize(IOEnv.TRACE)
 
@@ -247,6 +247,62 @@ LazyOk(ev) ==
      /\ r.alen = (IF d.k = "arr" THEN <<Len(d.a)>> ELSE <<>>)
      /\ DocEq(r.val, d) /\ Tup(Encode(r.val)) = Tup(Encode(d))
 
+
+----------------------------------------------------------------------------
+(* JSONPath selection (C08, C15, C17): one event holds the four modes through the Selector *)
+(* API, the convenience functions, existence and predicate match                           *)
+SelOk(r, items, pre, preoffs) ==
+  LET chunks == [i \in 1..Len(items) |-> Encode(items[i])]
+  IN /\ Has(r, "t") /\ r.t = "sel"
+     /\ Tup(r.data) = Tup(pre \o Flat(chunks))
+     /\ Tup(r.offs) = Tup(preoffs \o RunningEnds(chunks, Len(pre)))
+\* a predicate path: every mode writes the one boolean; whether an offset is recorded for it
+\* is not specified
+PredSelOk(r, b, pre, preoffs) ==
+  /\ Has(r, "t") /\ r.t = "sel"
+  /\ Tup(r.data) = Tup(pre \o Encode(Bool(b)))
+  /\ (Tup(r.offs) = Tup(preoffs) \/ Tup(r.offs) = Tup(preoffs \o <<Len(pre) + 8>>))
+\* an evaluation error: reported as an error, buffers as they were
+ErrSelOk(r, pre, preoffs) == Has(r, "t") /\ r.t = "err" /\ Tup(r.data) = Tup(pre) /\ Tup(r.offs) = Tup(preoffs)
+
+SelectOk(ev) ==
+  LET r == ev.res
+      a == ev.a
+      root == D(ev, 1)
+      ps == ev.ast
+      pre == IF Has(a, "pre") THEN a.pre ELSE <<>>
+      preoffs == IF Has(a, "preoffs") THEN a.preoffs ELSE <<>>
+      s == Select(ps, root)
+      ModeOk(rr, mode) ==
+        IF ~s.ok THEN ErrSelOk(rr, pre, preoffs)
+        ELSE IF IsPredicate(ps) THEN PredSelOk(rr, Len(s.v) > 0, pre, preoffs)
+        ELSE SelOk(rr, ModeItems(mode, s.v), pre, preoffs)
+  IN IF r.t = "noparse" THEN ~Has(a, "path") /\ Has(a, "mustparse") = FALSE
+     ELSE
+     /\ r.t = "select"
+     /\ (Has(a, "path") => ps = a.path)
+     /\ ModeOk(r.all, "all") /\ ModeOk(r.first, "first") /\ ModeOk(r.array, "array") /\ ModeOk(r.mixed, "mixed")
+     /\ ModeOk(r.f_mixed, "mixed") /\ ModeOk(r.f_first, "first") /\ ModeOk(r.f_array, "array")
+     /\ (IF IsPredicate(ps) THEN SafeEq(RBool(TRUE), r.exists) /\ SafeEq(RBool(TRUE), r.f_exists)
+         ELSE IF ~s.ok THEN r.exists.t = "err" /\ r.f_exists.t = "err"
+         ELSE SafeEq(RBool(Len(s.v) > 0), r.exists) /\ SafeEq(RBool(Len(s.v) > 0), r.f_exists))
+     /\ (IF ~IsPredicate(ps) THEN SafeEq(RErr("InvalidJsonPathPredicate"), r.pmatch) /\ SafeEq(RErr("InvalidJsonPathPredicate"), r.f_match)
+         ELSE IF ~s.ok THEN r.pmatch.t = "err" /\ r.f_match.t = "err"
+         ELSE SafeEq(RBool(Len(s.v) > 0), r.pmatch) /\ SafeEq(RBool(Len(s.v) > 0), r.f_match))
+
+----------------------------------------------------------------------------
+(* surface grammars (C09, C16): the text was rendered from a.want by spec/PathText.tla *)
+SyntaxOk(ev, kind) ==
+  LET a == ev.a
+      r == ev.res
+  IN IF Has(a, "expect")
+     THEN (IF a.expect = "err" THEN r.t = "err" ELSE r.t \in {"err", kind})
+     ELSE /\ r.t = kind
+          /\ r.v = a.want
+          \* printing and parsing the printout gives the same structure when nothing needs quoting
+          /\ (a.plain = 1 => Has(r.re, "t") /\ r.re.t = kind /\ r.re.v = a.want)
+          /\ (Has(r.re, "t") /\ r.re.t # "panic")
+
 ----------------------------------------------------------------------------
 Accept(ev) ==
   LET op == ev.op
@@ -257,6 +313,9 @@ Accept(ev) ==
     [] op = "parse_value" -> ParseValueOk(ev)
     [] op = "render" -> RenderOk(ev)
     [] op = "serde" -> SerdeOk(ev)
+    [] op = "select" -> SelectOk(ev)
+    [] op = "jp_parse" -> SyntaxOk(ev, "path")
+    [] op = "kp_parse" -> SyntaxOk(ev, "kp")
     [] op \in {"to_string", "to_pretty_string"} ->
          ev.res.t = "str" /\ Parse(ev.res.v, TRUE) # Err /\ Denotes(Parse(ev.res.v, TRUE), D(ev, 1)) # "no"
     [] op = "decode" -> DecodeOk(ev)
@@ -296,6 +355,36 @@ Accept(ev) ==
     [] op = "array_overlap" -> SafeEq(RBool(ArrayOverlap(D(ev, 1), D(ev, 2))), ev.res)
     [] OTHER -> FALSE
 
+
+----------------------------------------------------------------------------
+(* classes of rejected events, so that a recorded finding is as narrow as the defect *)
+RECURSIVE FirstDiff(_, _)
+\* the pair of sub-documents (or keys, as strings) at which compare decides; <<>> if equal
+FirstDiff(x, y) ==
+  IF Cmp(x, y) = 0 THEN <<>>
+  ELSE IF x.k # y.k THEN <<x, y>>
+  ELSE CASE x.k = "arr" ->
+              LET n == Min2(Len(x.a), Len(y.a))
+                  S == {i \in 1..n : Cmp(x.a[i], y.a[i]) # 0}
+              IN IF S = {} THEN <<x, y>> ELSE LET i == CHOOSE i \in S : \A j \in S : i <= j IN FirstDiff(x.a[i], y.a[i])
+         [] x.k = "obj" ->
+              LET n == Min2(Len(x.o), Len(y.o))
+                  S == {i \in 1..n : x.o[i][1] # y.o[i][1] \/ Cmp(x.o[i][2], y.o[i][2]) # 0}
+              IN IF S = {} THEN <<x, y>>
+                 ELSE LET i == CHOOSE i \in S : \A j \in S : i <= j
+                      IN IF x.o[i][1] # y.o[i][1] THEN <<Str(x.o[i][1]), Str(y.o[i][1])>> ELSE FirstDiff(x.o[i][2], y.o[i][2])
+         [] OTHER -> <<x, y>>
+Classify(ev) ==
+  IF ev.op # "comparable2" THEN ""
+  ELSE LET fd == FirstDiff(D(ev, 1), D(ev, 2))
+       IN IF fd = <<>> THEN "equal-documents"
+          ELSE IF fd[1].k = "num" /\ fd[2].k = "num" /\ IsFiniteNum(NumOf(fd[1])) /\ IsFiniteNum(NumOf(fd[2]))
+                  /\ Tup(AsF64(NumOf(fd[1]))) = Tup(AsF64(NumOf(fd[2])))
+               THEN "numbers-with-equal-nearest-double"
+          ELSE IF fd[1].k = "str" /\ fd[2].k = "str" /\ (IsPrefixOf(fd[1].s, fd[2].s) \/ IsPrefixOf(fd[2].s, fd[1].s))
+               THEN "string-is-prefix-of-sibling-string"
+          ELSE "other"
+
 \* "ok", "bad" (the code is not a step of the spec) or "tool" (the harness' own input is wrong)
 Verdict(ev) ==
   IF Has(ev.res, "t") /\ ev.res.t = "harness-error" THEN "tool"
@@ -303,11 +392,17 @@ Verdict(ev) ==
   ELSE IF Has(ev.res, "t") /\ Accept(ev) THEN "ok" ELSE "bad"
 
 Init == l = 1 /\ nbad = 0
+\* one line per rejected event, as a single string so that TLC never wraps it, and the total
+\* at the end so that the orchestrator can tell a lost line from a pass
+Report(v, ev) ==
+  PrintT("VERDICT|" \o v \o "|" \o ToString(l) \o "|" \o ev.op \o "|" \o ToString(IF Has(ev, "id") THEN ev.id ELSE 0)
+         \o "|" \o (IF v = "bad" THEN Classify(ev) ELSE "") \o "|")
 Next ==
   /\ l <= Len(Rec)
   /\ LET v == Verdict(Rec[l])
-     IN /\ IF v = "ok" THEN TRUE ELSE PrintT(<<"VERDICT", v, l, Rec[l].op, IF Has(Rec[l], "id") THEN Rec[l].id ELSE 0>>)
+     IN /\ IF v = "ok" THEN TRUE ELSE Report(v, Rec[l])
         /\ nbad' = IF v = "ok" THEN nbad ELSE nbad + 1
+        /\ IF l = Len(Rec) THEN PrintT("NBAD|" \o ToString(nbad') \o "|") ELSE TRUE
   /\ l' = l + 1
 Spec == Init /\ [][Next]_vars
 
